@@ -156,7 +156,13 @@ class Explorer:
         """True iff `term` has at most `limit` feasible values on the current path (probe without forking)"""
         self.solver.push()
         try:
-            for _ in range(limit + 1):
+            for i in range(limit + 1):
+                if i == 24:
+                    # more than 24 values: is it an (almost) unconstrained character?  (efficiency only: a "large"
+                    # answer sends the caller to the sampling fallback, which is reported as not exhaustive)
+                    exotic = sum(1 for x in (0x2603, 0x4e2d, 0xac00, 0x1f600, 0xe000, 0x3b1) if self.check(term == x) == z3.sat)
+                    if exotic >= 3:
+                        return False
                 if self.check() != z3.sat:
                     return True
                 v = self.model().eval(term, model_completion=True)
